@@ -38,6 +38,34 @@ CHECKS["C05"] = dict(
          "the executable LDL_f specification on all traces, normal-form generator).",
     design="§6 C05", technique="Lean 4 proof (unique solution of the Diamond/Box equation system = LDL_f under normal form) + equation-level correspondence")
 
+CHECKS["C01"] = dict(
+    text="Theorem C01_core (Lean 4): for every ground temporal program of the core rule fragment (every head form × body literal "
+         "form × program part), every horizon h reached through the incremental history of steps 0..h, the stable models of the "
+         "model's accumulated ground program G(P,h) — per step the instances of the parts selected by the partCond regenerated from "
+         "imain, atoms unknown at grounding time frozen to false, __initial(0), __final(h) the only true external — are exactly the "
+         "embeddings of the temporal stable models TSM(P,h) (temporal equilibrium logic on finite traces); partCond_spec, "
+         "ground_call_eq and instance_reading are the supporting lemmas.  Tie: the model's part list/future signatures are compared "
+         "with transform's return value and its ground program (solved by clingo) with the real incremental run at every horizon; "
+         "search: real runs vs the brute-force TSM enumerator on the head×literal×part grid and random programs with varying layout "
+         "(`base`, omitted directives).",
+    design="§6 C01", technique="Lean 4 proof (stable models of the incremental ground program = temporal stable models) + answer-set correspondence of the model with the implementation")
+CHECKS["C02"] = dict(
+    text="Theorems (Lean 4) about the model's accumulated ground program for programs with future heads and look-ahead constraints "
+         "of any depth: temporary copies carry __final(s) of the step that grounded them and are dead at every later horizon "
+         "(stale_dead); the re-grounding windows cover every position exactly (window_temp, window_perm, always_window_cover); the "
+         "assumptions falsify exactly the derivable __future atoms beyond h (assumptions_exact); a __future atom in an answer set "
+         "lies within the horizon and comes with its target (future_head).  The full semantic statement C02_statement is kept "
+         "visible and is PARTIAL: proved for the core fragment (C01_core), validated for the future fragment by the answer-set "
+         "correspondence of the model with the implementation and by the search against the TSM enumerator (depths ≤ 2, horizons incl. h < n).",
+    design="§6 C02", technique="Lean 4 proof of the look-ahead window / assumption invariants (partial for the semantic statement) + answer-set correspondence")
+CHECKS["C09"] = dict(
+    text="Theorems (Lean 4) about every stable model X of the model's accumulated ground program G(P,h), for every program of the "
+         "typed rule fragment and every horizon: user atoms carry times in 0..h (times_in_range), __initial(k) ∈ X ↔ k = 0, "
+         "__final(k) ∈ X ↔ k = h (by induction-free reading of the history: release precedes ground, assign follows — stepScript "
+         "extracted), a __future atom comes with its target and lies within h (future_target).  Tie: L1/L5 correspondence; search: a "
+         "direct monitor on every answer set of real runs (random programs of all fragments, the shipped examples).",
+    design="§6 C09", technique="Lean 4 proof (supportedness in stable models of the accumulated ground program) + runtime monitor on real answer sets")
+
 NOT_YET = {}
 
 def main():
